@@ -2,6 +2,6 @@
 SPECIFICATION Spec
 CONSTANTS MaxDigests = 5  MaxElems = 9
   Hashers <- HashersAll  ByteLens <- LensQuick  Kinds <- KindsTwo  Ints <- IntsAll
-  Fields <- FieldsAll  Sels <- SelsQuick
+  Fields <- FieldsAll  LongElems <- LongQuick  Sels <- SelsQuick
 INVARIANT WellFormed Emit
 CHECK_DEADLOCK FALSE
